@@ -7,7 +7,7 @@ use crate::runner::*;
 use crate::tape::Tape;
 use crate::with_spec;
 
-pub const RULE: &str = "inputs from the reader mix (valid, non-canonical, mutated incl. truncations, mid-document, adversarial; known/unknown sizes; specs with masters that nest in themselves) \
+pub const RULE: &str = "(stage rollup_deep_nesting: the same oracle on documents nested 28-300 masters deep over a recursive template or generated specification, innermost masters of unknown size, a third mutated.) inputs from the reader mix (valid, non-canonical, mutated incl. truncations, mid-document, adversarial; known/unknown sizes; specs with masters that nest in themselves) \
 × EVERY subset of the specification's master ids as buffered set when the spec has <= 6 masters (12 tape-chosen subsets otherwise, always incl. 'all masters') × one tolerance setting per case. \
 Oracle (metamorphic, against the unbuffered parse of the same bytes): replacing each Full by Start, children (recursively), End gives the unbuffered item sequence when that ends cleanly (and the buffered parse ends cleanly too); \
 if the unbuffered parse ends in an error the buffered one ends in an error after a prefix of that flattening; items outside buffered masters keep their offsets and a Full reports its Start's offset. \
@@ -28,6 +28,18 @@ fn contains_master(f: &Flat) -> bool {
 fn stage(i: &Input, c: &mut Case) -> Result<(), String> {
     let mut t = Tape::new(i.tape());
     let m = gen_mixed(&mut t, MixOpts { weights: [3, 3, 6, 1, 1, 2], ..MixOpts::default() });
+    rollup(t, m, c)
+}
+
+/// the same relation on documents nested 28 .. 300 masters deep (`gen_deep`): buffered masters inside buffered masters of the same id
+fn stage_deep(i: &Input, c: &mut Case) -> Result<(), String> {
+    let mut t = Tape::new(i.tape());
+    let m = gen_deep(&mut t, false);
+    c.label("nested_28_to_300_deep");
+    rollup(t, m, c)
+}
+
+fn rollup(mut t: Tape, m: MixedInput, c: &mut Case) -> Result<(), String> {
     let masters = m.spec.table().masters();
     let tolerate = if t.chance(2, 3) { 0 } else { t.below(8) as u8 };
     let capacity = if t.chance(1, 4) { Some(*t.pick(&[16usize, 33, 64])) } else { None };
@@ -221,11 +233,12 @@ fn stage_interrupted(i: &Input, c: &mut Case) -> Result<(), String> {
     })
 }
 
-pub const STAGES: &[Stage] = &[Stage { name: "rollup", f: stage }, Stage { name: "rollup_interrupted", f: stage_interrupted }];
+pub const STAGES: &[Stage] = &[Stage { name: "rollup", f: stage }, Stage { name: "rollup_interrupted", f: stage_interrupted }, Stage { name: "rollup_deep_nesting", f: stage_deep }];
 
 pub fn run(rc: &mut RunCtx) {
     rc.run_pt(STAGES[0], rc.pick(96_000, 500_000), (96, 500));
     rc.run_pt(STAGES[1], rc.pick(160_000, 800_000), (96, 500));
+    rc.run_pt(STAGES[2], rc.pick(2_000, 15_000), (64, 200));
     rc.require_label("rollup_interrupted", "full_item_collected_across_a_pause", 20_000);
     for l in ["full_contains_master", "error_inside_buffered_master", "unknown_size_buffered_master", "all_subsets"] {
         rc.require_label("rollup", l, 10_000);
